@@ -5,4 +5,8 @@ CHECKS = {
         "text": "Theorems (Props/C06.v, closed under the global context) state for every byte, every row list and every name subset that the modelled ReverseComplement / ReverseComplementSequences / ToUpper / ToLower / Unalign are the semantic IUPAC reverse complement (independent base-set spec), involutive, case-only, gap-only; the complement table is regenerated from /repo each run and re-proved against the spec for all 256 bytes. The model is tied to the code by evaluating model_ok on every generated case in the kernel.",
         "note": "Trusted: Coq kernel + VM, table translator and hook file, Go harness, the hand-written model of in-place slice mutation as list functions; non-ASCII case folding is carried from a dumped table and only stated for ASCII.",
     },
+    "C05": {
+        "text": "Theorems (closed under the global context): the three genetic-code tables regenerated from /repo equal NCBI tables 1/2/5 on all 64 codons and map --- to -; the IUPAC expansion table equals the base-set semantics; for all 256^3 byte triples and every supported code the modelled translateCodon equals the spec decision (shared amino acid / X / gap) - proved by a complete 256-byte classification sweep and a 17^3 class sweep; Sequence.Translate yields floor((L-frame)/3) residues, an error iff that is zero; three-frame naming; CodonAlign of a gapped translation is 3x long, preserves the nucleotides minus <= 2 trailing bases and translates back. The two TranslateByReference clauses are explicit statements checked on every generated case (bounded), not proved.",
+        "note": "Partial: the by-reference clauses are validated by correspondence only. Trusted: kernel+VM, translator/hooks, harness, the hand model (alignment rows with distinct names; AddSequence renaming is C01's subject).",
+    },
 }
